@@ -68,6 +68,7 @@ type Client struct {
 
 	View  *View
 	OnMsg func(*RecvMsg)
+	Stream []*streamItem
 	own   map[uint32]proto.Message // requests whose answer will tell the client what it changed
 
 	mark int // index into Msgs: start of the current observation window
@@ -158,6 +159,7 @@ func (c *Client) onMessage(raw []byte) {
 	}
 	c.w.ledger.observe(c, m)
 	c.View.apply(m)
+	c.recordStream(m)
 	if m.ReqID != 0 && m.Type != 0 {
 		if req, ok := c.own[m.ReqID]; ok {
 			// the client learns the effect of its own request from the answer, in stream order
